@@ -662,6 +662,36 @@ func runC20(r *Rand, tier string, o *Out) {
 				continue
 			}
 		}
+		if i%11 == 7 {
+			// a list of lists converted into twice with as many rows, the rows of other lengths: a row that grows
+			// must not reach into the next one
+			elem := &gtype{kind: []string{"i16", "i64", "u8", "s", "f32"}[r.Intn(5)]}
+			st = &gtype{kind: "[", elem: &gtype{kind: "[", elem: elem}}
+			n := 2 + r.Intn(3)
+			rows := func() string {
+				p := []string{"[", strconv.Itoa(n)}
+				for k := 0; k < n; k++ {
+					m := r.Intn(5)
+					q := []string{"[", strconv.Itoa(m)}
+					for j := 0; j < m; j++ {
+						q = append(q, genValTokens(r, elem))
+					}
+					p = append(p, strings.Join(q, " "))
+				}
+				return strings.Join(p, " ")
+			}
+			if r.Bool() {
+				st = &gtype{kind: "(", names: []string{"Rows", "N"}, fields: []*gtype{st, {kind: "i32"}}}
+				v1, v2 := "( 2 Rows "+rows()+" N "+genValTokens(r, st.fields[1]), "( 2 Rows "+rows()+" N "+genValTokens(r, st.fields[1])
+				tt := compatTarget(r, st, o)
+				o.Do("P", fmt.Sprintf("convre %s | %s | %s | %s", st.tokens(), tt.tokens(), v1, v2), true)
+			} else {
+				tt := compatTarget(r, st, o)
+				o.Do("P", fmt.Sprintf("convre %s | %s | %s | %s", st.tokens(), tt.tokens(), rows(), rows()), true)
+			}
+			o.Count("case:rows-of-other-lengths-into-a-used-destination")
+			continue
+		}
 		if i%9 == 4 {
 			// the same layout under other names: members of one type exchange their names
 			st = genTwinStruct(r, depth)
